@@ -178,14 +178,16 @@ def phase_crash(run, pool, progs, max_jobs):
     run.stats["env_crash_points"] += summ["env_crash"]
 
 
-def phase_crash_lines(run, pool, progs, max_jobs, cap):
+def phase_crash_lines(run, pool, progs, max_jobs, cap, always=()):
     """Crash points at SOURCE-LINE granularity (sim/crashenum.py, mode 'lines'): an asynchronous interrupt at the first and last
     occurrence of every distinct line of cola/ that the target step executes; then all invariants, the step again without fault
     (must equal the twin) and the rest of the history."""
     t = time.time()
     if len(progs) > max_jobs:
-        off = (run.seed * 13 + 5) % len(progs)
-        progs = (progs + progs)[off:off + max_jobs]
+        fixed = [p for p in progs if p.get("name", "").startswith(always)] if always else []
+        rest = [p for p in progs if p not in fixed]
+        off = (run.seed * 13 + 5) % len(rest)
+        progs = fixed + (rest + rest)[off:off + max(0, max_jobs - len(fixed))]
     summ = {"programs": 0, "line_crash_points": 0, "interrupts_delivered": 0, "distinct_lines": 0, "line_events_of_twins": 0,
             "env_crash": 0, "points_per_program_cap": cap}
 
@@ -230,8 +232,8 @@ def run_property(prop, tier, seed, workers=None, budget=None):
                     P18.phase_diff(run, pool, B["diff"])
                 phase_crash(run, pool, P18.crash_programs_c18(seed, tier), B["crash_jobs"][prop])
                 if not run.violations and not run.harness:
-                    phase_crash_lines(run, pool, P18.crash_programs_c18(seed, "quick"), 60 if tier == "quick" else 10**6,
-                                      30 if tier == "quick" else 120)
+                    phase_crash_lines(run, pool, P18.line_crash_programs_c18(tier), 80 if tier == "quick" else 10**6,
+                                      30 if tier == "quick" else 100, always=("products_after_abort_", ))
                 if not run.violations and not run.harness:
                     phase_threads18(run, pool)
         seen_cls = set()
